@@ -321,7 +321,7 @@ func (x *Exec) readView(st *State, v view) string {
 }
 
 func (x *Exec) syncViews(st *State) {
-	for _, v := range x.views {
+	for _, v := range st.views {
 		eh := x.c.elemHeap(v.elem)
 		curE, curH := st.get(eh), st.get(v.src.Heap)
 		mk := st.marks[v.ref]
@@ -1355,7 +1355,7 @@ func (f *Frame) sliceOp(i *ssa.Slice, st *State, g string) {
 			src = &Addr{Heap: c.boxHeap(u.Elem()), Ref: x.T, Typ: u.Elem()}
 		}
 		var r string
-		for _, v := range f.x.views {
+		for _, v := range st.views {
 			if v.src.Heap == src.Heap && v.src.Ref == src.Ref && v.src.Idx == src.Idx && pathEq(v.src.Path, src.Path) {
 				r = v.ref
 			}
@@ -1364,7 +1364,7 @@ func (f *Frame) sliceOp(i *ssa.Slice, st *State, g string) {
 			r = st.alloc()
 			eh := c.elemHeap(at.Elem())
 			st.set(eh, sto(st.get(eh), r, f.loadAddr(st, src)))
-			f.x.views = append(f.x.views, view{ref: r, elem: at.Elem(), n: n, src: src})
+			st.views = append(st.views, view{ref: r, elem: at.Elem(), n: n, src: src})
 			st.marks[r] = st.get(eh) + "|" + st.get(src.Heap)
 		}
 		f.define(i, tv(c.mkSlice(r, lo, "(- "+hi+" "+lo+")", "(- "+bound+" "+lo+")")), st, g)
